@@ -143,7 +143,7 @@ def C04(ck):
                "are judged against PsaWire!DispatchCBOR / DecodeTok / Valid; encodings the property leaves open evaluate to 'open'; "
                "non-trivial = rejected token or one with extra entries")
     ck.assumptions = TRUST + ["the independent CBOR encoder / reader harness/cborx"]
-    ck.add_model(vlib.mc("MC_Claims", "MC_Claims_decoded.cfg"))
+    _wire_model(ck)
     dom = vlib.gen_export("Gen_Claims", "Gen_Claims.cfg", "domains")
     wire = vlib.gen_export("Gen_Wire", "Gen_Wire.cfg", "wire")
     try:
@@ -153,6 +153,10 @@ def C04(ck):
         ck.extra.update(accepted=acc, rejected=rej, by_source=stats.get("by_source"))
     finally:
         _rm(dom, wire)
+
+
+def _wire_model(ck):
+    ck.add_model(vlib.mc("MC_Wire", "MC_Wire_small.cfg" if ck.tier == "quick" else "MC_Wire.cfg", timeout=3000))
 
 
 def _stride(ck, quick, thorough=1):
@@ -167,7 +171,7 @@ def C09(ck):
                "re-encode, compare bytes; (b) every token of the C04 enumeration that decodes (valid or not): encode, decode, compare "
                "getters; judged by Trace_Wire!EncodeCBOROK; non-trivial = invalid set, or valid set (distinct abstract object)")
     ck.assumptions = TRUST + ["the independent CBOR reader harness/cborx"]
-    ck.add_model(vlib.mc("MC_Claims", "MC_Claims_decoded.cfg"))
+    _wire_model(ck)
     dom = vlib.gen_export("Gen_Claims", "Gen_Claims.cfg", "domains")
     wire = vlib.gen_export("Gen_Wire", "Gen_Wire.cfg", "wire")
     valid = vlib.gen_export("Gen_Valid", "Gen_Valid.cfg", "valid")
@@ -188,7 +192,7 @@ def C10(ck):
                "value per key, bare nonce, never list + flag, nothing after the map); the payload of ValidateAndSign is covered by C03; "
                "non-trivial = every valid set (distinct abstract object)")
     ck.assumptions = TRUST + ["the independent CBOR reader harness/cborx"]
-    ck.add_model(vlib.mc("MC_Claims", "MC_Claims_setters.cfg"))
+    _wire_model(ck)
     valid = vlib.gen_export("Gen_Valid", "Gen_Valid.cfg", "valid")
     try:
         ck.run_and_judge(["wire-encode", "-seed", ck.seed, "-tier", ck.tier, "-n", _stride(ck, 3), "-chunk", 4000,
@@ -268,6 +272,8 @@ def C07(ck):
                           "-out", ck.path("wd")] + (["nopairs"] if ck.tier == "quick" else []), "Trace_Wire", par=12, xmx="3g", mode="dispatch")
         ck.run_and_judge(["wire-encode", "-seed", ck.seed, "-tier", ck.tier, "-n", _stride(ck, 9, 2), "-reg", "X2", "-chunk", 4000,
                           "-in", valid, "-out", ck.path("we"), "json"], "Trace_Wire", par=12, xmx="3g")
+        ck.run_and_judge(["json-decode", "-seed", ck.seed, "-reg", "X2", "-chunk", 3000, "-in", dom, "-out", ck.path("jd")], "Trace_Wire",
+                         par=12, xmx="3g", mode="dispatch")
         _reg_hist(ck, 60 if ck.tier == "quick" else 1000)
     finally:
         _rm(dom, wire, valid)
